@@ -64,6 +64,7 @@ func NewAttestationPool(spec *common.Spec) *AttestationPool {
 		datas:              make(map[common.Root]*IndexedAttData),
 		individual:         make(map[Assignment]*AttRef),
 		aggregate:          make(map[common.Root]*MinAggregates),
+		aggPerValidator:    make(map[Assignment]common.Root),
 		maxExtraAggregates: 10, // TODO: worth tuning
 	}
 }
@@ -187,6 +188,8 @@ func (ap *AttestationPool) Search(opts ...AttSearchOption) (out []*phase0.Attest
 	for _, opt := range opts {
 		opt(&conf)
 	}
+	ap.RLock()
+	defer ap.RUnlock()
 	for k, d := range ap.datas {
 		if conf.slot != nil && d.Data.Slot != *conf.slot {
 			continue
@@ -194,7 +197,10 @@ func (ap *AttestationPool) Search(opts ...AttSearchOption) (out []*phase0.Attest
 		if conf.comm != nil && d.Data.Index != *conf.comm {
 			continue
 		}
-		agg := ap.aggregate[k]
+		agg, ok := ap.aggregate[k]
+		if !ok { // only individual attestations known for this data
+			continue
+		}
 		for _, a := range agg.Aggregates {
 			out = append(out, &phase0.Attestation{AggregationBits: a.Participants, Data: d.Data, Signature: a.Sig})
 		}
@@ -205,6 +211,8 @@ func (ap *AttestationPool) Search(opts ...AttSearchOption) (out []*phase0.Attest
 
 // Prune pool based on current epoch, attestations which cannot be included anymore will get pruned.
 func (ap *AttestationPool) Prune(epoch common.Epoch) {
+	ap.Lock()
+	defer ap.Unlock()
 	min := epoch.Previous()
 	for k, v := range ap.datas {
 		if v.Data.Target.Epoch < min {
